@@ -89,8 +89,67 @@ def run(name, prop, tier="quick"):
     assert not sh("git -C /repo status --porcelain").stdout.strip()
 
 
+def run_scratch(name, prop, tier="quick", only=None):
+    """Like run(), but against a scratch worktree with the patch applied (VF_REPO_SRC), leaving /repo alone.
+    Used while other checks are using /repo; the result is recorded as a scratch run."""
+    dst = os.path.join(SEEDED, name)
+    wt = f"/tmp/seedrun_{name}"
+    sh(f"git -C /repo worktree remove --force {wt}")
+    sh(f"git -C /repo worktree add --detach {wt} HEAD")
+    try:
+        ap = sh(f"git -C {wt} apply {dst}/patch.diff")
+        if ap.returncode:
+            print("patch does not apply:", ap.stderr)
+            return
+        env = dict(os.environ, VF_REPO_SRC=f"{wt}/src", PYTHONPATH="/verif")
+        t0 = time.time()
+        cmd = f"/verif/.venv/bin/python -m vf.run {prop} --tier {tier} --no-evidence" + (f" --only '{only}'" if only else "")
+        r = sh(cmd, cwd="/verif", env=env, timeout=6 * 3600)
+    finally:
+        sh(f"git -C /repo worktree remove --force {wt}")
+    lines = [l for l in r.stdout.splitlines() if l.startswith(("VIOLATION", "  job=", "INCONCLUSIVE", "HARNESS-ERROR", "KNOWN")) or " obligations (" in l]
+    res = {"check": f"./check {prop} {tier}" + (f" (obligations matching {only})" if only else ""), "mode": "scratch worktree via VF_REPO_SRC", "exit": r.returncode,
+           "wall_s": round(time.time() - t0, 1), "detected": r.returncode == 1, "lines": [l[:300] for l in lines[:8]]}
+    meta = json.load(open(os.path.join(dst, "meta.json")))
+    meta["checks_run"] = [c for c in meta["checks_run"] if c["check"] != res["check"]] + [res]
+    json.dump(meta, open(os.path.join(dst, "meta.json"), "w"), indent=1)
+    print(name, json.dumps(res)[:600])
+
+
+def readme():
+    rows = []
+    for name in sorted(os.listdir(SEEDED)):
+        mp = os.path.join(SEEDED, name, "meta.json")
+        if not os.path.exists(mp):
+            continue
+        m = json.load(open(mp))
+        runs = m.get("checks_run", [])
+        det = [c for c in runs if c.get("detected")]
+        status = "DETECTED by " + det[0]["check"] if det else ("not run" if not runs else "MISSED (" + "; ".join(f"{c['check']}: exit {c['exit']}" for c in runs) + ")")
+        first = ""
+        if det:
+            j = [l for l in det[0]["lines"] if l.strip().startswith("job=")]
+            first = j[0].strip()[:160] if j else ""
+        rows.append((name, m.get("summary", "")[:150].replace("|", "/").replace("\n", " "), m.get("needs", "")[:120].replace("|", "/").replace("\n", " "), status, first.replace("|", "/")))
+    with open(os.path.join(SEEDED, "README.md"), "w") as fh:
+        fh.write("# Seeded changes\n\nEach directory holds `patch.diff` (a change to jaqalpaq produced by an independent sub-agent that saw only the text of one property), "
+                 "`demo.py` (fails with the change, passes without) and `meta.json` (what it breaks, what it needs to manifest, what was run).  "
+                 "All were confirmed in a scratch worktree: the patch applies, the 297-test suite passes with it, the demonstration fails with it and passes without.\n\n"
+                 "| seed | change | needs | result | first witness |\n|---|---|---|---|---|\n")
+        for r in rows:
+            fh.write("| " + " | ".join(r) + " |\n")
+        n = len(rows)
+        d = sum(1 for r in rows if r[3].startswith("DETECTED"))
+        fh.write(f"\n{d} of {n} detected.\n")
+    print(open(os.path.join(SEEDED, "README.md")).read()[-300:])
+
+
 if __name__ == "__main__":
     if sys.argv[1] == "verify":
         verify(sys.argv[2], int(sys.argv[3]), sys.argv[4])
+    elif sys.argv[1] == "scratch":
+        run_scratch(*sys.argv[2:])
+    elif sys.argv[1] == "readme":
+        readme()
     else:
         run(*sys.argv[2:])
